@@ -204,7 +204,13 @@ func collectAny(mode int, n int) (args []any, get func() []any) {
 	switch mode {
 	case modeCB:
 		var docs []any
-		return []any{func(v any) bool { docs = append(docs, v); return false }}, func() []any { return docs }
+		return []any{func(v any) bool {
+			if feReuse {
+				v = copyAny(v)
+			}
+			docs = append(docs, v)
+			return false
+		}}, func() []any { return docs }
 	case modeChan:
 		ch := make(chan any, n+2)
 		return []any{ch}, func() []any {
@@ -227,6 +233,11 @@ func collectAny(mode int, n int) (args []any, get func() []any) {
 // streamed document, 3 one whose previous call failed after a complete first document. The agreement of
 // the front-ends must not depend on it.
 var feUsed int
+
+// feReuse sets the Reuse option of the parsers that have one. Reused maps are only valid until the next
+// document is parsed, so in callback mode the executors copy each document inside the callback; in channel
+// mode the parsers switch Reuse off themselves and the documents are read after the call, as always.
+var feReuse bool
 
 var (
 	usedOK   = []byte(`{"secret":[1,2,3],"k":"earlier \u00e9 string","n":-12.5e3}`)
@@ -251,7 +262,7 @@ func earlierReader(d []byte) *sim.SimReader {
 }
 
 func newOJParser() *oj.Parser {
-	p := &oj.Parser{}
+	p := &oj.Parser{Reuse: feReuse}
 	if d, stream := usedDoc(); d != nil {
 		if stream {
 			_, _ = p.ParseReader(earlierReader(d))
@@ -263,7 +274,7 @@ func newOJParser() *oj.Parser {
 }
 
 func newGenParser() *gen.Parser {
-	p := &gen.Parser{}
+	p := &gen.Parser{Reuse: feReuse}
 	if d, stream := usedDoc(); d != nil {
 		if stream {
 			_, _ = p.ParseReader(earlierReader(d))
@@ -275,7 +286,7 @@ func newGenParser() *gen.Parser {
 }
 
 func newSenParser() *sen.Parser {
-	p := &sen.Parser{}
+	p := &sen.Parser{Reuse: feReuse}
 	p.AddMongoFuncs()
 	if d, stream := usedDoc(); d != nil {
 		if stream {
@@ -331,6 +342,25 @@ func returned(docs []any, v any) []any {
 		docs = append(docs, []any{"<returned value>", v})
 	}
 	return docs
+}
+
+// copyAny copies the containers of a simple tree (the harness's own copy: alt.Dup would also convert).
+func copyAny(v any) any {
+	switch tv := v.(type) {
+	case []any:
+		out := make([]any, len(tv))
+		for i, e := range tv {
+			out[i] = copyAny(e)
+		}
+		return out
+	case map[string]any:
+		out := make(map[string]any, len(tv))
+		for k, e := range tv {
+			out[k] = copyAny(e)
+		}
+		return out
+	}
+	return v
 }
 
 func ojParse(b []byte, mode int) *outcome {
@@ -405,7 +435,13 @@ func collectGen(mode int, n int) (args []any, get func() []any) {
 	switch mode {
 	case modeCB:
 		var docs []any
-		return []any{func(v gen.Node) bool { docs = append(docs, v); return false }}, func() []any { return docs }
+		return []any{func(v gen.Node) bool {
+			if feReuse && v != nil {
+				v = v.Dup()
+			}
+			docs = append(docs, v)
+			return false
+		}}, func() []any { return docs }
 	case modeChan:
 		ch := make(chan gen.Node, n+2)
 		return []any{ch}, func() []any {
